@@ -220,6 +220,40 @@ def warmup_visible(ast):
     return out
 
 
+def warmup_extra(ast):
+    """How many updates beyond the horizon the warm-up outputs of a delayed operand stay visible (finding F08).
+    A past operator with memory m (prev/s_prev/rise/fall: 1, a bounded operator: its upper bound, an unbounded one: inf)
+    above a sub-formula with horizon > 0 reads m earlier outputs of that sub-formula; outputs produced before the
+    sub-formula's own delay has elapsed are not values of the original formula at any instant. From update
+    horizon + warmup_extra on, every operator only reads outputs from after the warm-up, and the property's equation must hold
+    exactly. Returns a number of updates (0 outside the F08 region, inf when the memory is unbounded)."""
+    def go(x):
+        ch = sg.children(x)
+        if not ch or sg.horizon(x) == 0:
+            return 0            # a future-free sub-formula is evaluated undelayed and delayed as a whole
+        e = max(go(c) for c in ch)
+        k = x[0]
+        if k in sg.MEMORY_PAST:
+            if k in sg.EVENT + sg.SHIFT_PAST:
+                m = 1
+            elif k in ('once_b', 'historically_b', 'since_b'):
+                m = x[2]
+            else:
+                m = float('inf')
+            return e + m
+        return e
+    return go(ast)
+
+
+def f08_blind(ast):
+    """the part of the F08/F08b region in which nothing can be compared: unbounded memory above a delayed operand, or
+    log over operands of different horizons (raises during the warm-up)"""
+    rules = [x for x in warmup_visible(ast) if x != 'memory-past-above-delayed']
+    if warmup_extra(ast) == float('inf'):
+        rules.append('memory-past-above-delayed')
+    return rules
+
+
 def consts_to_refs(ast, consts):
     """replace literal leaves by references to declared constants; consts = [[name, value, how], ...]"""
     inv = dict((v, k) for k, v, _ in consts)
